@@ -124,6 +124,35 @@ class FakeSocket(object):
         self._st = state
         state.ref = weakref.ref(self)
 
+    def __getattr__(self, name):
+        # only an SSL socket has unwrap()
+        if name == 'unwrap' and self.__dict__.get('_st') is not None and \
+                self._st.tls:
+            return self._unwrap
+        raise AttributeError(name)
+
+    def _unwrap(self):
+        """SSLSocket.unwrap(): TLS shutdown (close_notify both ways), then
+        the same object goes on as a plain socket."""
+        st = self._st
+        w = st.world
+        w.op('unwrap', st.index)
+        w.stats['probe:tls_unwrap_called'] += 1
+        if st.closed:
+            raise OSError(errno.EBADF, 'Bad file descriptor')
+        mode = st.conn.tls_unwrap if st.conn is not None else None
+        if mode == 'fail' or st.dead:
+            w.fired('tls_unwrap_fails')
+            raise _real_ssl.SSLError(6, 'TLS/SSL connection has been closed '
+                                        '(EOF) {injected}')
+        if mode == 'stall':
+            w.fired('tls_unwrap_stalls')
+            if st.timeout is None:
+                raise SimHang('blocked forever in SSLSocket.unwrap()')
+            w.advance(w.now + int(st.timeout * 1e6))
+            raise _real_socket.timeout('The read operation timed out')
+        return self
+
     # -- set-up calls
     def setsockopt(self, level, opt, value=None, *a):
         st = self._st
@@ -741,6 +770,10 @@ class ConnSpec(object):
         self.faults = d.get('faults') or []
         self.short_reads = d.get('short_reads') or {}
         self.tls_readahead = bool(d.get('tls_readahead'))
+        # what SSLSocket.unwrap() does on this connection: None (the peer
+        # answers the close_notify), 'fail' (peer gone / no orderly TLS
+        # shutdown: ssl.SSLError, an OSError), 'stall' (no answer)
+        self.tls_unwrap = d.get('tls_unwrap')
         self.used_sockets = []
         self.n_poll = 0
         self.host = self.port = None
